@@ -134,6 +134,19 @@ def _run_with_real(fields):
     return dict(_run(fields), custom=_sim_and_real)
 
 
+def cs_dialer(sc):
+    """DialAsync path: addDialer marks the write interest (isWAdded) before it ADDs read+write; the tail of the
+    connected callback calls c.resetRead() inside its own locked region."""
+    bad = []
+    b = _body(sc, "poller_epoll.go", r"func \(p \*poller\) addDialer\(") or ""
+    if not re.search(r"c\.isWAdded = true\s*err := p\.addReadWrite\(fd\)", b):
+        bad.append("addDialer: isWAdded = true does not precede addReadWrite")
+    b = _body(sc, "conn_unix.go", r"func \(c \*Conn\) dialed\(") or _body(sc, "poller_epoll.go", r"func \(p \*poller\) readWriteLoop\(") or ""
+    if not re.search(r"c\.mux\.Lock\(\)\s*c\.resetRead\(\)\s*c\.mux\.Unlock\(\)", b):
+        bad.append("connected tail: c.resetRead() is not called in its own locked region")
+    return (not bad, "; ".join(bad))
+
+
 def cs_model_appends_only(sc):
     """The model never reads `wire` / `accepted` (it only appends to them): what lets the driver hash them
     incrementally. Every occurrence in the step functions must be `f := s.f ++ …`."""
@@ -152,7 +165,16 @@ def cs_model_appends_only(sc):
     return (not bad, "; ".join(bad[:3]))
 
 
-_CS = [cs_model_appends_only, cs_write_calls_locked, cs_rearm_and_register_locked, cs_close_test_and_set]
+def _shared_cs():
+    """the lock-set predicates of tools/csfacts for the same functions (vlib/cs.py: WRITE, CLOSE, DEADLINE)"""
+    try:
+        from . import cs
+        return list(cs.WRITE) + list(cs.CLOSE) + list(cs.DEADLINE)
+    except Exception:  # the shared module is optional for this family's own predicates
+        return []
+
+
+_CS = _shared_cs() + [cs_model_appends_only, cs_dialer, cs_write_calls_locked, cs_rearm_and_register_locked, cs_close_test_and_set]
 
 PROPS = {
     "C01": {
